@@ -36,12 +36,14 @@ def gen_bloom(rng, n, tag='b'):
                 L.append('union %d %d' % (i, j)); L.append('obs %d' % i)
             elif r < 0.75:
                 L.append('clear %d' % i); L.append('obs %d' % i)
-            elif r < 0.85:
+            elif r < 0.82:
                 L.append('q %d %d' % (i, rng.randrange(1 << 64)))
+            elif r < 0.9:
+                L.append('len %d' % i)
             else:
                 L.append('empty %d' % i)
         for i in live:
-            L.append('obs %d' % i)
+            L.append('obs %d' % i); L.append('len %d' % i)
         out.append(case('%s%d' % (tag, c), 'bloom', cfg, L))
     return out
 
@@ -360,7 +362,49 @@ def gen_td(rng, n, tag='d', nmax=300):
                 L.append('cdf %d %d' % (i, f64bits(x)))
         out.append(case('%s%d' % (tag, c), 'td', {}, L))
     return out
-GEN['td'] = gen_td
+def ulps(x, k):
+    """x moved by k units in the last place"""
+    b = f64bits(abs(x)) + k
+    v = struct.unpack('<d', struct.pack('<Q', max(b, 0)))[0]
+    return -v if x < 0 else v
+def gen_td_boundary(rng, n, tag='e'):
+    """small unfused digests (delta = 1000: every value its own centroid) queried exactly at, and a few ulps around,
+    every branch boundary of quantile (q = (j + 1/2)/n, 0, 1) and of cdf (x = each stored value, min, max)"""
+    out = []
+    for c in range(n):
+        K = rng.choice(['K0', 'K1', 'K2', 'K3'])
+        nv = rng.randrange(1, 14)
+        wts = [1.0] * nv if rng.random() < 0.6 else [rng.choice([1.0, 2.0, 3.0, 0.5, 7.0]) for _ in range(nv)]
+        vals = sorted(rng.choice([rng.randrange(-8, 9) * 1.0, rng.uniform(-3, 3), rng.randrange(1, 10) / 10.0]) for _ in range(nv))
+        if rng.random() < 0.3:
+            vals = [vals[0]] * nv          # all equal: fused means an ulp away from min/max
+        maxb = rng.choice([0, 3, 100])
+        delta = rng.choice([1000.0, 1000.0, 2.0, 1.5])
+        L = ['new 0 %s %d %d' % (K, f64bits(delta), maxb)]
+        order = list(range(nv)); rng.shuffle(order)
+        for i in order:
+            L.append('ins 0 %d %d' % (f64bits(vals[i]), f64bits(wts[i])))
+        W = sum(wts)
+        cum = 0.0
+        qs = [0.0, 1.0]
+        for i in range(nv):
+            for q in (cum / W, (cum + 0.5 * wts[i]) / W, (cum + wts[i]) / W):
+                qs += [min(1.0, max(0.0, ulps(q, k))) for k in (-2, -1, 0, 1, 2)] if 0.0 < q < 1.0 else []
+            cum += wts[i]
+        for q in qs[:120]:
+            L.append('quant 0 %d' % f64bits(q))
+        xs = []
+        for v in vals + [vals[0] - 1.0, vals[-1] + 1.0]:
+            xs += [ulps(v, k) for k in (-1, 0, 1)] if v != 0.0 else [v]
+        for x in xs[:80]:
+            L.append('cdf 0 %d' % f64bits(x))
+        L.append('audit 0')
+        out.append(case('%s%d' % (tag, c), 'td', {}, L))
+    return out
+def gen_td_all(rng, n, tag='d'):
+    k = max(1, n // 3)
+    return gen_td(rng, n - k, tag) + gen_td_boundary(rng, k, tag + 'b')
+GEN['td'] = gen_td_all
 QUICK['td'] = 300
 THOROUGH['td'] = 6000
 
@@ -480,3 +524,69 @@ def gen_hser(rng, n, tag='s'):
 GEN.update({'hllc': gen_hllc, 'hser': gen_hser})
 QUICK.update({'hllc': 250, 'hser': 500})
 THOROUGH.update({'hllc': 3000, 'hser': 20000})
+
+# ------------------------------------------------------------------ sizing constructors (C07, C08)
+def gen_sizing(rng, n, tag='z'):
+    out = []
+    PS = [0.5, 0.6, 0.9, 0.999, 0.1, 0.01, 0.001, 1e-6, 1e-9, 0.3, 0.25, 0.125, 0.03125, 1e-12, 1e-17, 1e-19, 1e-25, 5e-324, 0.7310585786300049]
+    for c in range(n):
+        L = []
+        for _ in range(rng.randrange(2, 8)):
+            r = rng.random()
+            pr = rng.choice(PS) if rng.random() < 0.6 else rng.random() ** rng.choice([1, 3, 8])
+            if rng.random() < 0.04:
+                pr = rng.choice([0.0, 1.0, 1.5])          # rejected by the constructor
+            if r < 0.35:
+                nn = rng.choice([1, 1, 2, 10, 49, 50, 51, 1000, 5000, 100000, 0 if rng.random() < 0.1 else 7])
+                if pr > 0 and nn * 50 * max(1.0, -__import__('math').log(max(pr, 1e-300))) > 2e8:
+                    nn = 100
+                L.append('bloom %d %d' % (nn, f64bits(pr)))
+            elif r < 0.6:
+                eps = rng.choice([0.1, 0.01, 0.001, 0.5, 0.9, 2.0, 0.3, 1e-4, rng.uniform(1e-4, 1.5), 2.718281828459045, 1.3591409142295225])
+                delta = rng.choice([0.5, 0.1, 0.01, 1e-4, 1e-9, 0.999, 0.9999999999999999, 0.36787944117144233, 0.1353352832366127, rng.random()])
+                if rng.random() < 0.05:
+                    delta = rng.choice([0.0, 1.0]); 
+                L.append('cms %d %d' % (f64bits(eps), f64bits(delta)))
+            else:
+                nn = rng.choice([1, 1, 2, 3, 4, 10, 100, 1000, 3000, 50000, 0 if rng.random() < 0.1 else 8])
+                L.append('%s %d %d' % (rng.choice(['cuckoo4', 'cuckoo8']), f64bits(pr), nn))
+        out.append(case('%s%d' % (tag, c), 'sizing', {}, L))
+    return out
+GEN['sizing'] = gen_sizing
+QUICK['sizing'] = 300
+THOROUGH['sizing'] = 5000
+
+
+# ------------------------------------------------------------------ memory (C11)
+def gen_mem(rng, n, tag='y'):
+    out = []
+    for c in range(n):
+        L = []
+        for _ in range(rng.randrange(2, 6)):
+            kind = rng.choice(['bloom', 'cms', 'hll', 'cuckoo', 'cuckoo', 'qf', 'qf', 'td', 'res', 'heap', 'lossy'])
+            nops = rng.choice([200, 1000, 3037])
+            if kind == 'bloom':
+                L.append('mem bloom %d %d %d' % (rng.choice([1, 31, 32, 33, 1000, 65536, 1000003]), rng.choice([1, 3, 7]), nops))
+            elif kind == 'cms':
+                L.append('mem cms %d %d %d' % (rng.choice([1, 7, 100, 272]), rng.choice([1, 3, 10]), nops))
+            elif kind == 'hll':
+                L.append('mem hll %d %d' % (rng.randrange(4, 17), nops))
+            elif kind == 'cuckoo':
+                l = rng.choice([2, 3, 5, 8, 13, 16, 31, 32, 33, 63, 64])
+                L.append('mem cuckoo %d %d %d %d' % (rng.choice([2, 3, 4, 8]), rng.choice([2, 4, 64, 1024]), l, rng.choice([50, 300, 1037])))
+            elif kind == 'qf':
+                bq = rng.randrange(1, 13)
+                L.append('mem qf %d %d %d' % (bq, rng.choice([1, 2, 3, 7, 8, 31, 32, 33, 64 - bq]), rng.choice([50, 300, 1037])))
+            elif kind == 'td':
+                L.append('mem td %d %d %d' % (rng.choice([2, 20, 100, 1000]), rng.choice([0, 10, 1000]), nops))
+            elif kind == 'res':
+                L.append('mem res %d %d' % (rng.choice([1, 10, 100, 5000]), nops))
+            elif kind == 'heap':
+                L.append('mem heap %d %d %d %d' % (rng.choice([1, 10, 100]), rng.choice([10, 100]), rng.choice([1, 4]), nops))
+            else:
+                L.append('mem lossy %d %d' % (rng.choice([1, 10, 100, 1000]), nops))
+        out.append(case('%s%d' % (tag, c), 'mem', {}, L))
+    return out
+GEN['mem'] = gen_mem
+QUICK['mem'] = 150
+THOROUGH['mem'] = 1500
